@@ -128,14 +128,18 @@ func ExplodeXML(raw []byte, cfg ExplodeConfig) (Result, error) {
 				Fields:     frame.Fields,
 			}
 			result.Segments = append(result.Segments, seg)
-			switch {
-			case segmentSets.items[seg.Name]:
+			// The routes are independent: a segment name configured for more
+			// than one route goes to each of them.
+			if segmentSets.items[seg.Name] {
 				result.Items = append(result.Items, seg)
-			case segmentSets.partners[seg.Name]:
+			}
+			if segmentSets.partners[seg.Name] {
 				result.Partners = append(result.Partners, seg)
-			case segmentSets.statuses[seg.Name]:
+			}
+			if segmentSets.statuses[seg.Name] {
 				result.Statuses = append(result.Statuses, seg)
-			case segmentSets.dates[seg.Name]:
+			}
+			if segmentSets.dates[seg.Name] {
 				result.Dates = append(result.Dates, seg)
 			}
 		}
